@@ -4,15 +4,12 @@
 #include "ref_format.h"
 #include "xor_eq.h"
 
+#define M16_STEP r ^= a & (0u - (b & 1u)); b >>= 1; a <<= 1; a ^= 0x1100bu & (0u - ((a >> 16) & 1u));
 uint32_t m16_mul(uint32_t a, uint32_t b)
 {
     uint32_t r = 0;
-    for (int i = 0; i < 16; i++) {
-        r ^= a & (0u - (b & 1u));
-        b >>= 1;
-        a <<= 1;
-        a ^= 0x1100bu & (0u - ((a >> 16) & 1u));
-    }
+    M16_STEP M16_STEP M16_STEP M16_STEP M16_STEP M16_STEP M16_STEP M16_STEP
+    M16_STEP M16_STEP M16_STEP M16_STEP M16_STEP M16_STEP M16_STEP M16_STEP
     return r;
 }
 uint32_t m16_inv(uint32_t a)
@@ -21,15 +18,11 @@ uint32_t m16_inv(uint32_t a)
     for (int i = 1; i < 16; i++) { s = m16_mul(s, s); r = m16_mul(r, s); }
     return r;
 }
+#define M8_STEP r ^= a & (0u - (b & 1u)); b >>= 1; a <<= 1; a ^= 0x11du & (0u - ((a >> 8) & 1u));
 uint32_t m8_mul(uint32_t a, uint32_t b)
 {
     uint32_t r = 0;
-    for (int i = 0; i < 8; i++) {
-        r ^= a & (0u - (b & 1u));
-        b >>= 1;
-        a <<= 1;
-        a ^= 0x11du & (0u - ((a >> 8) & 1u));
-    }
+    M8_STEP M8_STEP M8_STEP M8_STEP M8_STEP M8_STEP M8_STEP M8_STEP
     return r;
 }
 uint32_t m8_inv(uint32_t a)
